@@ -88,16 +88,19 @@ pub open spec fn has_key_for(m: SMap, i: int) -> bool { exists|k: BTreeSet<State
 pub open spec fn queue_ok(q: Seq<StateSetID>, lo: int, hi: int) -> bool {
     q.len() == hi - lo && forall|i: int| 0 <= i < q.len() ==> (#[trigger] q[i]).0 == lo + i
 }
+#[verifier::opaque]
 pub open spec fn trans_sound(n: Nfa, t: Set<Edge>, reps: Seq<StateID>, lim: int) -> bool {
     forall|e: Edge| #[trigger] t.contains(e) ==> e.0.0 < lim && elim_edge(n, reps, e.0.0 as int, e.1, e.2)
 }
 pub open spec fn edge_present(n: Nfa, t: Set<Edge>, reps: Seq<StateID>, f: int, cc: CharClassID, tg: StateID) -> bool {
     exists|to: StateSetID| to.0 < reps.len() && same_closure(n, tg.0 as int, reps[to.0 as int].0 as int) && #[trigger] t.contains((StateSetID(f as u32), cc, to))
 }
+#[verifier::opaque]
 pub open spec fn trans_complete(n: Nfa, t: Set<Edge>, reps: Seq<StateID>, p: int) -> bool {
     forall|f: int, cc: CharClassID, tg: StateID| 0 <= f < p && f < reps.len() && #[trigger] fires(n, reps[f].0 as int, cc, tg) ==> edge_present(n, t, reps, f, cc, tg)
 }
 pub open spec fn entered(t: Set<Edge>, to: StateSetID) -> bool { exists|f: StateSetID, cc: CharClassID| #[trigger] t.contains((f, cc, to)) }
+#[verifier::opaque]
 pub open spec fn acc_ok(n: Nfa, acc: Seq<(StateSetID, usize)>, t: Set<Edge>, reps: Seq<StateID>) -> bool {
     let tt = n.pattern.token_type;
     let end = n.end_state.0 as int;
@@ -252,6 +255,9 @@ pub proof fn lemma_push_mono(n: Nfa, t: Set<Edge>, acc: Seq<(StateSetID, usize)>
         trans_sound(n, t, reps.push(x), lim), trans_complete(n, t, reps.push(x), p), acc_ok(n, acc, t, reps.push(x)),
         forall|f: int, cc: CharClassID, tg: StateID| #[trigger] edge_present(n, t, reps, f, cc, tg) ==> edge_present(n, t, reps.push(x), f, cc, tg),
 {
+    reveal(trans_sound);
+    reveal(trans_complete);
+    reveal(acc_ok);
     let r2 = reps.push(x);
     assert forall|f: int, cc: CharClassID, to: StateSetID| #[trigger] elim_edge(n, reps, f, cc, to) implies elim_edge(n, r2, f, cc, to) by {
         let tg = choose|tg: StateID| #[trigger] fires(n, reps[f].0 as int, cc, tg) && same_closure(n, tg.0 as int, reps[to.0 as int].0 as int);
@@ -288,6 +294,8 @@ pub proof fn lemma_insert_edge(n: Nfa, t: Set<Edge>, reps: Seq<StateID>, c: int,
         edge_present(n, t.insert((StateSetID(c as u32), cc, id)), reps, c, cc, tg),
         forall|f: int, cc2: CharClassID, tg2: StateID| #[trigger] edge_present(n, t, reps, f, cc2, tg2) ==> edge_present(n, t.insert((StateSetID(c as u32), cc, id)), reps, f, cc2, tg2),
 {
+    reveal(trans_sound);
+    reveal(trans_complete);
     let e0 = (StateSetID(c as u32), cc, id);
     let t2 = t.insert(e0);
     assert(elim_edge(n, reps, c, cc, id));
@@ -309,6 +317,7 @@ pub proof fn lemma_acc_step(n: Nfa, acc0: Seq<(StateSetID, usize)>, acc1: Seq<(S
         acc1 == (if eps_reach(n, reps[e0.2.0 as int].0 as int, n.end_state.0 as int) && !acc0.contains((e0.2, n.pattern.token_type)) { acc0.push((e0.2, n.pattern.token_type)) } else { acc0 }),
     ensures acc_ok(n, acc1, t.insert(e0), reps)
 {
+    reveal(acc_ok);
     let tt = n.pattern.token_type;
     let end = n.end_state.0 as int;
     let t2 = t.insert(e0);
@@ -363,6 +372,9 @@ pub proof fn lemma_elim_final(n: Nfa, d: CompiledDfa, reps: Seq<StateID>, t: Set
         d.lookaheads@.len() == 0,
     ensures elim_ok(n, d, reps)
 {
+    reveal(trans_sound);
+    reveal(trans_complete);
+    reveal(acc_ok);
     reveal(reps_distinct);
     let tt = n.pattern.token_type;
     let end = n.end_state.0 as int;
@@ -405,4 +417,45 @@ pub proof fn lemma_same_closure_reach(n: Nfa, a: int, b: int, x: int)
     ensures eps_reach(n, a, x) <==> eps_reach(n, b, x)
 {
     reveal(same_closure);
+}
+
+pub proof fn lemma_worklist_init(n: Nfa, reps: Seq<StateID>)
+    ensures trans_sound(n, Set::<Edge>::empty(), reps, 0), trans_complete(n, Set::<Edge>::empty(), reps, 0), acc_ok(n, Seq::<(StateSetID, usize)>::empty(), Set::<Edge>::empty(), reps)
+{
+    reveal(trans_sound); reveal(trans_complete); reveal(acc_ok);
+}
+pub proof fn lemma_ts_use(n: Nfa, t: Set<Edge>, reps: Seq<StateID>, lim: int, e: Edge)
+    requires trans_sound(n, t, reps, lim), t.contains(e)
+    ensures e.0.0 < lim, e.2.0 < reps.len(), 0 <= e.0.0 < reps.len()
+{
+    reveal(trans_sound);
+}
+pub proof fn lemma_ts_weaken(n: Nfa, t: Set<Edge>, reps: Seq<StateID>, lim: int, lim2: int)
+    requires trans_sound(n, t, reps, lim), lim <= lim2
+    ensures trans_sound(n, t, reps, lim2)
+{
+    reveal(trans_sound);
+}
+pub proof fn lemma_acc_use(n: Nfa, acc: Seq<(StateSetID, usize)>, t: Set<Edge>, reps: Seq<StateID>, i: int)
+    requires acc_ok(n, acc, t, reps), 0 <= i < acc.len()
+    ensures acc[i].1 == n.pattern.token_type, acc[i].0.0 < reps.len()
+{
+    reveal(acc_ok);
+}
+/// all transitions fired by automaton state c have been entered: c is complete
+pub proof fn lemma_complete_step(n: Nfa, t: Set<Edge>, reps: Seq<StateID>, c: int, ts: Seq<(CharClassID, StateID)>)
+    requires
+        trans_complete(n, t, reps, c), 0 <= c < reps.len(),
+        forall|cc: CharClassID, tg: StateID| #[trigger] ts.contains((cc, tg)) <==> fires(n, reps[c].0 as int, cc, tg),
+        forall|kk: int| 0 <= kk < ts.len() ==> edge_present(n, t, reps, c, (#[trigger] ts[kk]).0, ts[kk].1),
+    ensures trans_complete(n, t, reps, c + 1)
+{
+    reveal(trans_complete);
+    assert forall|f: int, cc: CharClassID, tg: StateID| 0 <= f < c + 1 && f < reps.len() && #[trigger] fires(n, reps[f].0 as int, cc, tg) implies edge_present(n, t, reps, f, cc, tg) by {
+        if f == c {
+            assert(ts.contains((cc, tg)));
+            let kk = choose|kk: int| 0 <= kk < ts.len() && ts[kk] == (cc, tg);
+            assert(edge_present(n, t, reps, c, ts[kk].0, ts[kk].1));
+        }
+    }
 }
